@@ -292,6 +292,15 @@ def run(pid, tier, seed, replay, t0, evidence_path):
         ax_report, ax_bad = audit_axioms(pid, theorems)
     if token_hits or ax_bad:
         raise Infra('audit failed: %s %s' % (token_hits[:5], ax_bad[:5]))
+    # thorough tier: independent re-check of the compiled property module by leanchecker
+    leanchecker = None
+    if tier == 'thorough' and not proof_errors and not replay and os.environ.get('VERIF_LEANCHECKER', '1') != '0':
+        t1 = time.time()
+        rc3, out3 = sh(['lake', 'env', 'leanchecker', 'BqlVerif.Properties.%s' % pid], cwd=LEAN, timeout=1500)
+        leanchecker = {'module': 'BqlVerif.Properties.%s' % pid, 'exit': rc3, 'wall_s': round(time.time() - t1, 1),
+                       'output_tail': out3[-300:]}
+        if rc3 != 0:
+            raise Infra('leanchecker rejected the compiled property module:\n' + out3[-1500:])
 
     # ---- 4. correspondence ----------------------------------------------------
     import driver as drvmod
@@ -375,7 +384,7 @@ def run(pid, tier, seed, replay, t0, evidence_path):
             'samples': samples, 'outside_model_skipped': ctx.skipped, 'histogram': ctx.histogram,
             'generated_facts_changed_vs_golden': golden_diffs[:20],
             'proof_errors': proof_errors, 'known_findings_reexhibited': sorted(known_hit),
-            'notes': ctx.notes,
+            'notes': ctx.notes, 'leanchecker': leanchecker,
         },
         'assumptions': list(getattr(prop, 'ASSUMPTIONS', [])),
         'wall_s': round(time.time() - t0, 2), 'violations': nviol,
